@@ -61,7 +61,8 @@ def model_with(schema, home, text, seed):
     ca['attrs'].append({'n': 'Items', 'k': 'base', 'ty': 'integer', 'dims': '[4]'})
     ca['sms'] = [{'kind': 'inst',
                   'events': [E(1, 'go', ('x', 'integer'), ('flag', 'boolean'), ('s', 'string')), E(2, 'stop now'),
-                             E(3, 'set', ('n', 'integer')), E(4, 'work', *[(p['n'], p['ty'], p.get('dims', '')) for p in PARAMS])],
+                             E(3, 'set', ('n', 'integer')), E(4, 'work', *[(p['n'], p['ty'], p.get('dims', '')) for p in PARAMS]),
+                             dict(E(5, 'poly', ('n', 'integer')), poly=('star' if seed % 2 else 'plain'))],
                   'states': [{'n': 'Idle', 'numb': 1, 'body': ''},
                              dict({'n': 'Working', 'numb': 2, 'via': 4, 'body': text if home == 'state' else '', 'creation': seed % 3 == 0},
                                   **({'tbody': text} if home == 'transition' else {}))]},
